@@ -356,6 +356,28 @@ def run(ctx: Ctx) -> int:
     ctx.oblige("C12.f", ok, hst, "has_subtypes covers sequences, tuples/sets and mappings" if ok else f"has_subtypes no longer tests {sorted(need_ - tabs_)}: a quoted forward reference inside such a container hint stays unresolved - the parameter is dropped from the CLI (or add fails) although the signature declares it", fn=hst, construct="container tables covered")
 
     ctx.trusted_base += ["argparse raises on conflicting option strings, so an unconditional --config option fails loudly if the component has a `config` parameter"]
+    # ---------------- C12.g / C12.h: every parameter of the signature becomes an argument, with its final annotation --------
+    tre = ctx.func("_postponed_annotations:type_requires_eval")
+    leafs = set()
+    for c in calls_in(tre):
+        if call_leaf(c) == "isinstance" and len(c.args) == 2:
+            leafs |= {x.id for x in ast.walk(c.args[1]) if isinstance(x, ast.Name)}
+    ok = {"str", "ForwardRef"} <= leafs
+    ctx.oblige("C12.g", ok, tre, "both spellings of an unevaluated annotation (a string, and the ForwardRef that typing makes of a quoted sub-type) are sent to evaluation" if ok else f"type_requires_eval only recognises {sorted(leafs)}: a parameter annotated List['int'] / Optional['Opts'] keeps its ForwardRef, is skipped as unsupported, and the component is called without it (TypeError) or its value is rejected as unexpected", fn=tre, construct="unevaluated leaf kinds")
+    asp2 = ctx.func("_signatures:SignatureArguments._add_signature_parameter")
+    gasp = ctx.cfg(asp2)
+    ann_locals = [s_.targets[0].id for s_ in walk_local(asp2) if isinstance(s_, ast.Assign) and isinstance(s_.targets[0], ast.Name) and ast.unparse(s_.value) == "param.annotation"]
+    ctx.need(len(ann_locals) == 1, "_add_signature_parameter: <annotation> = param.annotation")
+    annv = ann_locals[0]
+    rewrites = [s_ for s_ in walk_local(asp2) if isinstance(s_, ast.Assign) and any(isinstance(t, ast.Name) and t.id == annv for t in s_.targets) and ast.unparse(s_.value) != "param.annotation"]
+    ctx.floor("C12.h-annotation-rewrites", len(rewrites), 2)
+    derived = [s_ for s_ in walk_local(asp2) if isinstance(s_, ast.Assign) and len(s_.targets) == 1 and isinstance(s_.targets[0], ast.Name) and s_.targets[0].id != annv and any(isinstance(x, ast.Name) and x.id == annv for x in ast.walk(s_.value)) and any(isinstance(c, ast.Call) for c in ast.walk(s_.value))]
+    ctx.floor("C12.h-derived-facts", len(derived), 2)
+    for d in derived:
+        later = [r_ for r_ in rewrites if gasp.can_reach(gasp.cn(d), gasp.cn(r_), exclude_labels={"e"})]
+        ok = not later
+        ctx.oblige("C12.h", ok, d, f"`{d.targets[0].id}` is computed from the final annotation" if ok else f"`{d.targets[0].id}` is computed from `{annv}` before `{ast.unparse(later[0])[:50]}` replaces it: for `opts: Opts = None` (dataclass, implicit Optional) the fact describes Opts while the argument is declared with Optional[Opts] - building the CLI raises TypeError (unexpected keyword 'fail_untyped')", fn=asp2)
+
     return ctx.finish(
         explanation=(
             "Guard-symmetry check: each constant key popped from the parsed namespace in _run_component is paired (table in rules_C12.py) with the place auto_cli introduces it; "
